@@ -72,6 +72,12 @@ def member_space(thorough):
         out.append([base(2, size=5, exts=[[2, hx(body[:L // 2] + b"\xff" + body[L // 2:] + b"\xff")], [1, hx(body[:7])]])])
         out.append([with_ext(base(2, name=b"lnk|" + body, method=hx(b"-lhd-"), size=0, packed=0), 0x50, struct.pack("<H", 0o120777))])
         out.append([with_ext(base(2, name=body[:L - 4] + b"|tgt", method=hx(b"-lhd-"), size=0, packed=0), 0x50, struct.pack("<H", 0o120777))])
+    # conversion specifications in stored names are text like any other
+    for nm in (b"100%.txt", b"50% done.txt", b"%s%s%s%s", b"%d%x%c", b"%%", b"%5$s", b"a%-10sb", b"%", b"%08.3f", b"x%ny"):
+        out.append([base(2, name=nm)])
+        out.append([base(1, name=b"dir%s\\" + nm)])
+        out.append([base(2, size=5, exts=[[2, hx(b"p%d\xff" + nm + b"\xff")], [1, hx(nm)]])])
+        out.append([with_ext(base(2, name=b"l%s|" + nm, method=hx(b"-lhd-"), size=0, packed=0), 0x50, struct.pack("<H", 0o120777))])
     # bytes that must be shown as '?': in the name, the path and the link target
     for b in (0x01, 0x1F, 0x7F, 0x80, 0xFF, 0x09, 0x0A, 0x1B):
         ch = bytes([b])
@@ -126,6 +132,17 @@ def many_cases(thorough):
         yield {"members": ms, "mode": "v", "filters": [hx(b"member000??.dat"), hx(b"*99.dat")]}
 
 
+def long_glob_cases(thorough):
+    """wildcards decide on the whole stored path, however long it is"""
+    for L in (250, 255, 256, 257, 300, 1000) + ((5000,) if thorough else ()):
+        stem = bytes(b"abcdefghij"[i % 10] for i in range(L - 4))
+        ms = [dict(base(2, name=stem + b".txt", size=3), data=hx(b"abc")), dict(base(2, name=stem + b".dat", size=4), data=hx(b"abcd")),
+              dict(base(2, size=5, exts=[[2, hx(stem[:L // 2] + b"\xff")], [1, hx(stem[L // 2:] + b".txt")]]), data=hx(b"abcde")), dict(base(2, name=b"x.txt", size=1), data=hx(b"a"))]
+        for mode in ("l", "v", "lv"):
+            for filters in ([hx(b"*.txt")], [hx(b"*.dat")], [hx(b"a*j.txt")], [hx(b"*/*.txt")], [hx(b"*" + stem[-20:] + b".txt")], [hx(b"?" * 5 + b"*")], [hx(stem + b".txt")]):
+                yield {"members": ms, "mode": mode, "filters": filters}
+
+
 def london_cases(thorough):
     for ms in member_space(False)[-120:] + [m for m in member_space(False) if "time" in m[0]][:200:3]:
         for mode in ("l", "vv"):
@@ -135,12 +152,13 @@ def london_cases(thorough):
 def run(ctx):
     cliprop.run_space(ctx, "props.cli_c19", "members", cases(ctx.thorough), chunk=32)
     cliprop.run_space(ctx, "props.cli_c19", "many", many_cases(ctx.thorough), chunk=1)
+    cliprop.run_space(ctx, "props.cli_c19", "long-glob", long_glob_cases(ctx.thorough), chunk=4)
     cliprop.run_space(ctx, "props.cli_c19", "members-london", london_cases(ctx.thorough), env={"TZ": "Europe/London"}, chunk=32)
     ctx.assumptions += ["vlib/listrender.py reproduces all 720 listings recorded from the original Unix LHA tool (./check selftest); header fields come from the C reference parser/normaliser (ref_hdrjson), float32 ratio arithmetic is emulated exactly",
                         "totals are kept below 2^32 (the statement says 'sums'; a 32-bit total is not decidable from it); fixed 'now' through TEST_NOW_TIME, archive mtime set with utime"]
     return ctx.finish(
         rule="single-member archives varying one column at a time over its boundary values (size x packed over {0,1,9999999,10^7,2^31,2^32-1} x levels; all 256 OS types; each permission bit x type nibble; all 128 OS-9 words; uid/gid boundaries; 15 Unix and 7 DOS timestamps around the six-month boundary, 0 and 2^32-1; name lengths 0..40 and 300; names, directory parts and link targets of 250..260, 511..513, 1023..1025 and 4000 (thorough 8191..8193, 20000) bytes; links and directories at every level; every method name) x {l, lv, v, vv}; "
-             "archives of 0/1/2/5 members x 4 modes x quiet {none,q0,q1,q2,q} x 9 wildcard lists (incl. backtracking patterns); archives of 255/256/257/1000 (thorough 65537) members with and without wildcard lists; a DST-bearing zone (Europe/London) for the time columns. Oracle: stdout equals the reference rendering byte for byte. non-trivial = cases with at least one selected row",
+             "archives of 0/1/2/5 members x 4 modes x quiet {none,q0,q1,q2,q} x 9 wildcard lists (incl. backtracking patterns); wildcard lists against stored paths of 250..1000 (5000) bytes; names holding printf conversion specifications; archives of 255/256/257/1000 (thorough 65537) members with and without wildcard lists; a DST-bearing zone (Europe/London) for the time columns. Oracle: stdout equals the reference rendering byte for byte. non-trivial = cases with at least one selected row",
         replay_fn=lambda rep: cliprop.replay_case(rep))
 
 
